@@ -10,7 +10,6 @@
 # information at https://github.com/ddsmt/ddSMT/blob/master/LICENSE.
 
 import io
-import textwrap
 import typing
 
 from .nodes import Node
@@ -188,6 +187,53 @@ def __write_smtlib_pretty_str(expr: Node):
     return f.getvalue()
 
 
+def __wrap_line(line: str, width: int = 78, indent: str = '  '):
+    """Wrap the rendering of one expression to ``width`` columns.
+
+    Lines are only broken at blanks that separate two tokens, never
+    within string literals, quoted symbols or comments, and tokens are
+    never split (a token longer than ``width`` stays on a line of its
+    own).
+    """
+    # collect the blanks at which the line may be broken
+    breaks = []
+    pos = 0
+    size = len(line)
+    while 0 <= pos < size:
+        char = line[pos]
+        if char in ('"', '|'):
+            # skip to the closing quote ("" continues the literal)
+            pos = line.find(char, pos + 1)
+        elif char == ';':
+            # comments extend to the end of the line
+            pos = line.find('\n', pos)
+        elif char == ' ':
+            breaks.append(pos)
+        if pos < 0:
+            break
+        pos += 1
+    res = []
+    col = 0
+    start = 0
+    for brk in breaks + [size]:
+        chunk = line[start:brk]
+        first = chunk.split('\n', 1)[0]
+        if start > 0:
+            if col + 1 + len(first) > width:
+                res.append('\n' + indent)
+                col = len(indent)
+            else:
+                res.append(' ')
+                col += 1
+        res.append(chunk)
+        if '\n' in chunk:
+            col = len(chunk) - chunk.rfind('\n') - 1
+        else:
+            col += len(chunk)
+        start = brk + 1
+    return ''.join(res)
+
+
 def write_smtlib(file: typing.TextIO, exprs: typing.List[Node]):
     """Write the given expressions to the given file object
     Honor options to wrap lines or pretty-print."""
@@ -201,11 +247,7 @@ def write_smtlib(file: typing.TextIO, exprs: typing.List[Node]):
         lines = [__write_smtlib_str(expr) for expr in exprs]
         if options.args().wrap_lines:
             # wrap every line
-            lines = map(
-                lambda line: textwrap.wrap(
-                    line, width=78, subsequent_indent='  '), lines)
-            # and flatten the list
-            lines = [sub for line in lines for sub in line]
+            lines = [__wrap_line(line) for line in lines]
         for line in lines:
             file.write(line)
             file.write('\n')
